@@ -112,11 +112,9 @@ func genConc(rng *mon.RNG) concPlan {
 				case r < 36:
 					ttl := int64(rng.Range(1, 4))
 					if rng.Chance(1, 8) {
-						// large / huge TTLs, where the effective TTL stays representable as a Duration
+						// large / huge TTLs, capped or not
 						c := bigTTLs(p.maxTTL)
-						if t := c[rng.Intn(len(c))]; p.maxTTL > 0 || t <= maxDurSec {
-							ttl = t
-						}
+						ttl = c[rng.Intn(len(c))]
 					}
 					st.Ops = append(st.Ops, cop{K: "set", Key: hot, TTL: ttl})
 				case r < 66:
@@ -389,6 +387,12 @@ func (h *hist) judgeMiss(g *crec) {
 	shape := "hot-key"
 	if h.cold[key] {
 		shape = "untouched-key"
+	}
+	for _, s := range liveSets {
+		if eff := s.ttl; (h.maxTTL == 0 || h.maxTTL > maxDurSec) && eff > maxDurSec {
+			shape += "/ttl-beyond-duration"
+			break
+		}
 	}
 	h.violation(h.pre+"/get/miss-live-entry/"+shape+"/"+h.raceContext(g, true), fmt.Sprintf("%v missed although every Set that can be the latest one is live and no Delete/Reset/documented cleanup race can explain it; candidates: %s", g, recList(liveSets)))
 }
